@@ -275,7 +275,8 @@ fn tail(o: &Opt, text: &str, opps: String, mins: String) -> String {
 
 pub fn real_wrap(text: &str, o: &Opt) -> (Option<Vec<LineOut>>, String) {
     let (r, mins) = with_minima(|| {
-        let ls = textwrap::wrap(text, o.to_options());
+        // every other call hands the options over by reference (`impl From<&Options> for Options`)
+        let ls = if text.len() % 2 == 0 { textwrap::wrap(text, o.to_options()) } else { let oo = o.to_options(); textwrap::wrap(text, &oo) };
         cow_lines(text, &ls)
     });
     (r, mins)
@@ -304,7 +305,7 @@ pub fn op_wrapline(path: &str, nprev: usize, line: &str, o: &Opt) -> (Op, Option
 }
 
 pub fn op_fill(text: &str, o: &Opt) -> (Op, Option<String>) {
-    let (r, mins) = with_minima(|| textwrap::fill(text, o.to_options()));
+    let (r, mins) = with_minima(|| if text.len() % 2 == 0 { textwrap::fill(text, o.to_options()) } else { let oo = o.to_options(); textwrap::fill(text, &oo) });
     let opps = opps_table(text.split(o.ending()), o);
     let real = r.as_ref().map(|s| enc_text(s)).unwrap_or("panic".into());
     (Op { req: format!("fill|{}", tail(o, text, opps, mins)), real }, r)
@@ -364,7 +365,7 @@ pub fn op_unfill(text: &str) -> (Op, Option<UnfillOut>) {
 }
 
 pub fn op_refill(text: &str, o: &Opt) -> (Op, Option<String>) {
-    let (r, mins) = with_minima(|| textwrap::refill(text, o.to_options()));
+    let (r, mins) = with_minima(|| if text.len() % 2 == 0 { textwrap::refill(text, o.to_options()) } else { let oo = o.to_options(); textwrap::refill(text, &oo) });
     // the text `fill` will see inside `refill`
     let opps = match real_unfill(text) {
         Some(u) => {
@@ -389,7 +390,7 @@ pub fn op_dedent(text: &str) -> (Op, String) {
 }
 
 pub fn op_columns(text: &str, o: &Opt, columns: usize, l: &str, m: &str, r: &str) -> (Op, Option<Vec<String>>) {
-    let (res, mins) = with_minima(|| textwrap::wrap_columns(text, columns, o.to_options(), l, m, r));
+    let (res, mins) = with_minima(|| if text.len() % 2 == 0 { textwrap::wrap_columns(text, columns, o.to_options(), l, m, r) } else { let oo = o.to_options(); textwrap::wrap_columns(text, columns, &oo, l, m, r) });
     let opps = opps_table(text.split(o.ending()), o);
     let real = res.as_ref().map(|v| enc_lines(v)).unwrap_or("panic".into());
     (
